@@ -181,7 +181,7 @@ func longValue(g *gen, n int) string {
 func execFraming(t *testing.T, p *Plan) *Result {
 	r := &Result{}
 	w := runWorld(t, p, func(w *World) {
-		st := &relayState{w: w, c: &p.Cfg, learned: map[string][]learnedAt{}, seenBranches: map[string]string{}, routeAnswers: map[string]string{}}
+		st := newRelayState(w, &p.Cfg)
 		l := p.Cfg.Listens[0]
 		for i := range p.Ops {
 			op := &p.Ops[i]
